@@ -96,6 +96,35 @@ pub fn test_bytes(c: &BytesCase) -> Verdict {
         Ok(x) => x,
         Err(p) => return Verdict::fail(format!("tree_hash_from_stream panicked on {}: {p}", crate::util::hexs(b))),
     };
+    // parse_triples without hash calculation takes a different code path (atom payloads are skipped, not read):
+    // it must accept the same inputs, consume the same bytes and return the same triples
+    let pt_nohash = match guard(|| {
+        let mut cur = Cursor::new(b.as_slice());
+        parse_triples(&mut cur, false).map(|(tr, hashes)| (tr, hashes.is_some(), cur.position() as usize))
+    }) {
+        Ok(x) => x,
+        Err(p) => return Verdict::fail(format!("parse_triples(no hashes) panicked on {}: {p}", crate::util::hexs(b))),
+    };
+    match (&pt, &pt_nohash) {
+        (Ok((t1, _, c1)), Ok((t2, has, c2))) => {
+            if *has {
+                return Verdict::fail("parse_triples(calculate_tree_hashes = false) returned hashes".to_string());
+            }
+            if format!("{t1:?}") != format!("{t2:?}") || c1 != c2 {
+                return Verdict::fail(format!("parse_triples with and without hash calculation return different triples / positions on {}", crate::util::hexs(b)));
+            }
+        }
+        (Err(_), Err(_)) => {}
+        (a, n) => {
+            return Verdict::fail(format!(
+                "parse_triples accepts {} only {} hash calculation (with: {}, without: {})",
+                crate::util::hexs(b),
+                if a.is_ok() { "with" } else { "without" },
+                a.is_ok(),
+                n.is_ok()
+            ));
+        }
+    }
     let acc = [nfb.is_ok(), pt.is_ok(), ths.is_ok(), reference.is_ok()];
     if acc.iter().any(|x| *x != acc[0]) {
         return Verdict::fail(format!(
